@@ -178,6 +178,14 @@ func (g *c17Gen) str(n int) string {
 func c17Build(d c17Doc, term string) *c17Built {
 	r := rand.New(rand.NewPCG(d.Seed, 0xc17))
 	g := &c17Gen{r: r, wide: d.Wide}
+	if term == "\x00mixed" {
+		mr := rand.New(rand.NewPCG(d.Seed, 0x3117))
+		return c17BuildWith(d, r, g, "\n", func() string { return []string{"\n", "\r", "\r\n", "\n"}[mr.IntN(4)] })
+	}
+	return c17BuildWith(d, r, g, term, func() string { return term })
+}
+
+func c17BuildWith(d c17Doc, r *rand.Rand, g *c17Gen, term string, nl func() string) *c17Built {
 	b := &c17Built{term: term, lineStarts: []int{0}}
 	var out bytes.Buffer
 	target := func() int {
@@ -195,10 +203,10 @@ func c17Build(d c17Doc, term string) *c17Built {
 		}
 		if !first {
 			if cur > 0 && cur+len(tok) > tgt || cur == 0 && tgt == 0 && r.IntN(3) == 0 {
-				out.WriteString(term)
+				out.WriteString(nl())
 				b.lineStarts = append(b.lineStarts, out.Len())
 				for r.IntN(14) == 0 { // blank lines
-					out.WriteString(term)
+					out.WriteString(nl())
 					b.lineStarts = append(b.lineStarts, out.Len())
 				}
 				ind := 0
@@ -349,7 +357,7 @@ func c17PreText(t c17JCase) []byte {
 	term := c17Term(t.Term)
 	var buf bytes.Buffer
 	for i, d := range t.Pre {
-		buf.Write(c17Build(d, term).text)
+		buf.Write(c17Build(d, c17BuildTerm(t.Term)).text)
 		if i == len(t.Pre)-1 && t.Join == "sp" {
 			buf.WriteByte(' ')
 		} else {
@@ -367,7 +375,7 @@ func c17Assemble(t c17JCase) (whole []byte, p int, eof, ok bool) {
 	for i := 0; i < t.Pad; i++ {
 		buf.WriteByte(' ')
 	}
-	b := c17Build(t.Doc, term)
+	b := c17Build(t.Doc, c17BuildTerm(t.Term))
 	text, q, ok := c17Inject(b, t.Fault)
 	if !ok || t.Mode == "argjson" && t.Fault.Kind == "ta" && t.Fault.Idx == len(b.toks)-1 {
 		return nil, 0, false, false // --argjson reads one value only: nothing behind it is examined
@@ -648,7 +656,7 @@ func c17BodyJSON(c *run.Ctx) {
 		if d%len(perm) == len(perm)-1 {
 			perm = r.Perm(len(c17Combos))
 		}
-		term := c17Terms[r.IntN(3)]
+		term := c17TermsMixed[r.IntN(len(c17TermsMixed))]
 		base := c17JCase{Doc: doc, Term: term, Via: combo.via, Mode: combo.mode, Tail: r.IntN(3) == 0}
 		if combo.mode != "argjson" {
 			base.Pre = c17PreProfile(r, r.IntN(8))
@@ -688,7 +696,7 @@ func c17BodyJSON(c *run.Ctx) {
 		// faults next to the thresholds of the reader's window
 		if len(base.Pre) > 0 || len(b.text) > 12*1024 {
 			preLen := len(c17PreText(base))
-			bt := c17Build(base.Doc, c17Term(term))
+			bt := c17Build(base.Doc, c17BuildTerm(term))
 			for th := 4096; th <= preLen+len(bt.text) && th <= 96*1024; th += 4096 {
 				if th < preLen || r.IntN(2) == 0 {
 					continue
